@@ -110,6 +110,20 @@ class ListV(V):
         return f"List<{self.tag}>" if self.items is None else f"[{', '.join(map(repr, self.items))}]"
 
 
+class GenV(V):
+    """A generator expression: its element expressions run when it is consumed (late binding of free names)."""
+
+    def __init__(self, node, frame, first_iter):
+        self.node = node
+        self.frame = frame
+        self.first_iter = first_iter      # the outermost iterable is evaluated eagerly, as in Python
+        self.consumed = False
+        self.lazy = True
+
+    def __repr__(self):
+        return "Generator<expr>"
+
+
 class SliceV(V):
     def __init__(self, lo, hi):
         self.lo, self.hi = lo, hi
